@@ -1,4 +1,5 @@
 import Mochi.Model.Broker
+import Mochi.Lemmas.BrokerOrder
 /-!
 # C12 — Messages on one topic from one publisher arrive in publish order
 
@@ -18,6 +19,10 @@ makes that choice explicit (`nextSeed`, `resendSeed`) and the theorems quantify 
   resent in the opposite order under a map order Go may produce.  The `brokerorder` correspondence
   suite replays this on the real broker on every run (first transmissions observed out of publish
   order after flow-control deferral and after session resumption).
+* History level (end of the file; lemmas in `Lemmas/BrokerOrder.lean`, namespace `O12`): `C12_history_order_partial`,
+  `C12_history_order_of_first_tx`, `C12_per_op_single_copy`, `C12_routing_single_copy`,
+  `C12_routing_immediate_any_qos`, `C12_qos0_stream_order`, and the demo `h12History` — the positive half of C12 for
+  every history and everything outside F12.
 -/
 namespace Mochi.Broker
 open Mochi.Topics
@@ -91,3 +96,218 @@ theorem C12_resend_counterexample :
   decide
 
 end Mochi.Broker
+
+/-! ## History level: first transmissions follow publish order (everything outside F12)
+
+`O12.flat s ops`: everything the history `ops` writes from state `s`, in order; `O12.pubsTo c outs`: the PUBLISH
+packets written to connection `c`, in order; `run s (ops.take i)`: the state before the `i`-th op. -/
+namespace Mochi.Broker
+open Mochi.Topics
+
+/-- **C12 on histories — restricted (hence `_partial`).**  `s`: any state reached without schedule ops (`ReachSeq`);
+    `ops`: ANY history without schedule ops (fresh connection numbers), of any length, with arbitrary ops of other
+    clients in between.  If the `i`-th and the `j`-th op (`i < j`) are PUBLISH packets of QoS 0 on connection `p` to
+    the same topic `t`, each accepted in the state before it (`O12.PubQ0`: gates of the publish, no shared
+    subscription matching `t`, the publisher's own release tail cannot write to `c`), and the receiving connection `c`
+    is entitled to each in the state before it (`EntitledF03`), then
+    * op `i` writes `c` EXACTLY ONE PUBLISH `m₁`, op `j` exactly one `m₂` — in the publishing step itself;
+    * they are the copies of the two messages (payload, the publisher's id as origin, QoS 0, dup 0: first
+      transmissions);
+    * on `c`'s stream `m₁` comes before `m₂`: `pubsTo c (flat s ops) = A ++ m₁ :: B ++ m₂ :: C`.
+
+    COVERED: deliveries whose copy is QoS 0 because the PUBLISH is QoS 0 — they are never deferred.
+    NOT covered here (full statement: any `q₁ q₂`, copies of QoS > 0 that are immediate in the sense of `notDeferred`):
+    the op-level decomposition of the QoS 1/2 PUBLISH op is missing; what is proved for them is the routing call
+    (`C12_routing_immediate_any_qos`: the served connection is written its copy by the call itself) and the generic
+    order theorem `C12_history_order_of_first_tx`, which applies to ANY two ops once "the op writes `c` exactly this
+    PUBLISH" is known.  DEFERRED deliveries and RESENDS are out by F12 (`C12_deferred_release_counterexample`,
+    `C12_resend_counterexample`: the property is false there).  Also excluded: schedule ops, shared subscriptions
+    matching the topic, inbound topic aliases, a publish-hook mode on the topic. -/
+theorem C12_history_order_partial (caps : Caps) (s : Server) (hr : ReachSeq caps s) (ops : List Op) (hseq : SeqOps ops)
+    (hf : OpsFresh s ops) (p c i j k₁ k₂ : Nat) (t : Str) (d₁ r₁ d₂ r₂ : Bool) (pay₁ pay₂ : Str) (me₁ me₂ : Nat)
+    (hi : ops[i]? = some (.recv p (.publish 0 d₁ r₁ 0 t pay₁ me₁ none)))
+    (hj : ops[j]? = some (.recv p (.publish 0 d₂ r₂ 0 t pay₂ me₂ none))) (hij : i < j)
+    (g₁ : O12.PubQ0 (run s (ops.take i)) p k₁ c t) (g₂ : O12.PubQ0 (run s (ops.take j)) p k₂ c t)
+    (e₁ : EntitledF03 (run s (ops.take i)) (inboundMsg (run s (ops.take i)) k₁ 0 d₁ r₁ 0 t pay₁ me₁) c)
+    (e₂ : EntitledF03 (run s (ops.take j)) (inboundMsg (run s (ops.take j)) k₂ 0 d₂ r₂ 0 t pay₂ me₂) c) :
+    ∃ m₁ m₂ A B C,
+      O12.pubsTo c (step (run s (ops.take i)) (.recv p (.publish 0 d₁ r₁ 0 t pay₁ me₁ none))).2 = [m₁] ∧
+      O12.pubsTo c (step (run s (ops.take j)) (.recv p (.publish 0 d₂ r₂ 0 t pay₂ me₂ none))).2 = [m₂] ∧
+      O12.CopyQ0 m₁ pay₁ (getObj (run s (ops.take i)) k₁).id ∧
+      O12.CopyQ0 m₂ pay₂ (getObj (run s (ops.take j)) k₂).id ∧
+      O12.pubsTo c (O12.flat s ops) = A ++ m₁ :: B ++ m₂ :: C :=
+  O12.history_order_q0 caps s hr ops hseq hf p c i j k₁ k₂ t d₁ r₁ d₂ r₂ pay₁ pay₂ me₁ me₂ hi hj hij g₁ g₂ e₁ e₂
+
+/-- **order, generic: ANY state, ANY history (schedule ops included), ANY two ops `i < j`, any QoS.**  If op `i` writes
+    connection `c` exactly the PUBLISH `m₁` and op `j` exactly `m₂` — each in the state the earlier ops lead to —, `m₁`
+    is transmitted before `m₂` on `c`.  This is the construction of the run; what makes it C12 is that the first
+    transmission of an immediate delivery is written in the publishing step (`C12_live_immediate`,
+    `C12_history_order_partial`, `C12_routing_immediate_any_qos`). -/
+theorem C12_history_order_of_first_tx (s : Server) (ops : List Op) (i j : Nat) (op₁ op₂ : Op) (c : Nat) (m₁ m₂ : Msg)
+    (hi : ops[i]? = some op₁) (hj : ops[j]? = some op₂) (hij : i < j)
+    (h₁ : O12.pubsTo c (step (run s (ops.take i)) op₁).2 = [m₁])
+    (h₂ : O12.pubsTo c (step (run s (ops.take j)) op₂).2 = [m₂]) :
+    ∃ A B C, O12.pubsTo c (O12.flat s ops) = A ++ m₁ :: B ++ m₂ :: C :=
+  O12.order_of_first_tx s ops i j op₁ op₂ c m₁ m₂ hi hj hij h₁ h₂
+
+/-- **one copy per op**: the accepted QoS 0 PUBLISH op writes connection `c` at most one PUBLISH, in every state
+    satisfying the all-history invariants — so "the" first transmission of the message to `c` is well defined.
+    (Non-shared: `PubQ0.noShared`.) -/
+theorem C12_per_op_single_copy (s : Server) (hs : SyncInv s) (hw : WF s) (hcm : ConnMap s)
+    (p i c : Nat) (t : Str) (h : O12.PubQ0 s p i c t) (dup retain : Bool) (payload : Str) (me : Nat) :
+    (O12.pubsTo c (step s (.recv p (.publish 0 dup retain 0 t payload me none))).2).length ≤ 1 :=
+  O12.publish_q0_single s hs hw hcm p i c t h dup retain payload me
+
+/-- **one copy per routing call, a message of ANY QoS**: `publishToSubscribers` writes connection `c` at most one
+    PUBLISH (`WF`, one connection per object, no outbound aliases, no shared subscription matching the topic). -/
+theorem C12_routing_single_copy (s : Server) (hw : WF s) (hcd : ConnDistinct s) (hna : Q1.NoAliases s)
+    (pk : Msg) (hig : pk.ignore = false) (ht : pk.type = 3)
+    (hsh : (subscribers s.topics pk.topic).shared = []) (c : Nat) :
+    (O12.pubsTo c (publishToSubscribers s pk).2).length ≤ 1 :=
+  O12.routing_single s hw hcd hna pk hig ht hsh c
+
+/-- **an immediate delivery of ANY QoS is transmitted by the routing call itself.**  The client object `k` (id `cid`,
+    connection `c`, live) is entitled through the entry `(cid, sub)` of the subscriber map, and its delivery is
+    immediate: the copy is QoS 0, or the client is `notDeferred` (the hypothesis of `C12_live_immediate`: no Receive
+    Maximum or send quota left), below the in-flight limit, with a packet identifier available.  Then
+    `publishToSubscribers s pk` writes `c` exactly one PUBLISH: the copy of `pk` (payload, topic, origin, dup 0). -/
+theorem C12_routing_immediate_any_qos (s : Server) (hw : WF s) (hcd : ConnDistinct s) (hna : Q1.NoAliases s)
+    (pk : Msg) (hig : pk.ignore = false) (ht : pk.type = 3)
+    (hsh : (subscribers s.topics pk.topic).shared = []) (cid : Str) (k : Nat) (sub : Sub) (pid : Nat)
+    (hreg : (cid, k) ∈ s.clients) (hopen : (getObj s k).isOpen = true) (hinl : (getObj s k).inline = false)
+    (hpeer : (getObj s k).peerGone = false) (hsub : (cid, sub) ∈ (subscribers s.topics pk.topic).subs)
+    (hacl : aclOk s cid pk.topic false = true) (hnl : (sub.noLocal && pk.origin == cid) = false)
+    (himm : shapeQos s.caps sub pk.qos = 0 ∨
+      (notDeferred (getObj s k) ∧ (getObj s k).inflight.length < s.caps.maximumInflight ∧
+        nextPacketID (getObj s k) s.caps.maximumPacketID = some pid)) :
+    ∃ m, O12.pubsTo (getObj s k).conn (publishToSubscribers s pk).2 = [m] ∧ m.payload = pk.payload ∧
+      m.topic = pk.topic ∧ m.origin = pk.origin ∧ m.dup = false :=
+  (O12.routing_first_tx s hw hcd hna pk hig ht hsh (getObj s k).conn).1
+    ⟨cid, k, sub, hreg, rfl, hopen, hinl, hpeer, hsub, hacl, hnl,
+      himm.imp id (fun h => ⟨pid, O12.sent_of_notDeferred s k pid h.2.1 h.2.2 h.1⟩)⟩
+
+/-- **the stream of QoS 0 flows.**  For a labelled history (`O12.Labelled c`: every op is an accepted QoS 0 PUBLISH
+    to which `c` is entitled — label `some (publisher id, payload)` — or writes `c` no PUBLISH — label `none`) from a
+    reachable state: the (origin, payload) pairs `c` is written are EXACTLY the labelled publishes in publish order,
+    all QoS 0 first transmissions; and per publisher `o`, the payloads `c` is written from `o` are exactly the
+    payloads of `o`'s publishes, in order. -/
+theorem C12_qos0_stream_order (caps : Caps) (c : Nat) (s : Server) (ops : List Op) (ls : List (Option (Str × Str)))
+    (h : O12.Labelled c s ops ls) (hr : ReachSeq caps s) (hseq : SeqOps ops) (hf : OpsFresh s ops) :
+    (O12.pubsTo c (O12.flat s ops)).map (fun m => (m.origin, m.payload)) = ls.filterMap id ∧
+    (∀ m ∈ O12.pubsTo c (O12.flat s ops), m.qos = 0 ∧ m.dup = false) ∧
+    ∀ o : Str, ((O12.pubsTo c (O12.flat s ops)).filter (fun m => m.origin == o)).map (·.payload) =
+      ((ls.filterMap id).filter (fun x => x.1 == o)).map (·.2) :=
+  ⟨(O12.qos0_stream caps c s ops ls h hr hseq hf).1, (O12.qos0_stream caps c s ops ls h hr hseq hf).2,
+    O12.qos0_stream_of caps c s ops ls h hr hseq hf⟩
+
+end Mochi.Broker
+
+/-! ### Non-vacuity: two publishers interleaved, one subscriber, a third client subscribing in between -/
+namespace Mochi.Broker
+open Mochi.Topics
+
+/-- `s` (connection 1) subscribes `a`; `p` (connection 2) and `q` (connection 3) connect; `p` publishes `01`, `q`
+    publishes `09`, `z` (connection 4) connects and subscribes `a` too, `p` publishes `02` — all QoS 0 on topic `a` -/
+def h12History : List Op :=
+  [.connect 1 { ver := 4, id := [115] },
+   .recv 1 (.subscribe 1 0 [{ filter := [97] }]),
+   .connect 2 { ver := 4, id := [112] },
+   .connect 3 { ver := 5, id := [113] },
+   .recv 2 (.publish 0 false false 0 [97] [1] 0 none),
+   .recv 3 (.publish 0 false false 0 [97] [9] 0 none),
+   .connect 4 { ver := 4, id := [122] },
+   .recv 4 (.subscribe 1 0 [{ filter := [97] }]),
+   .recv 2 (.publish 0 false false 0 [97] [2] 0 none)]
+
+theorem h12_seq : SeqOps h12History ∧ OpsFresh (init {}) h12History := by decide
+
+/-- the hypotheses of `C12_history_order_partial` hold for `p`'s two publishes (ops 4 and 8, client object 2) and the
+    receiver `s` (connection 1) … -/
+theorem h12_pub4 : O12.PubQ0 (run (init {}) (h12History.take 4)) 2 2 1 [97] :=
+  ⟨by decide, ⟨by decide, by decide, by decide, by decide, by decide, by decide, by decide, by decide, by decide⟩,
+    by decide, Or.inl (by decide)⟩
+
+theorem h12_pub8 : O12.PubQ0 (run (init {}) (h12History.take 8)) 2 2 1 [97] :=
+  ⟨by decide, ⟨by decide, by decide, by decide, by decide, by decide, by decide, by decide, by decide, by decide⟩,
+    by decide, Or.inl (by decide)⟩
+
+/-- … `s` is entitled to both (read off the outputs through `publish_q0_stream`) … -/
+theorem h12_entitled :
+    EntitledF03 (run (init {}) (h12History.take 4)) (inboundMsg (run (init {}) (h12History.take 4)) 2 0 false false 0 [97] [1] 0) 1 ∧
+    EntitledF03 (run (init {}) (h12History.take 8)) (inboundMsg (run (init {}) (h12History.take 8)) 2 0 false false 0 [97] [2] 0) 1 := by
+  obtain ⟨a1, a2, a3, _⟩ := (O12.reach_take (ReachSeq.init (caps := {})) h12History h12_seq.1 h12_seq.2 4).inv
+  obtain ⟨b1, b2, b3, _⟩ := (O12.reach_take (ReachSeq.init (caps := {})) h12History h12_seq.1 h12_seq.2 8).inv
+  constructor
+  · apply Classical.byContradiction
+    intro hn
+    have := (O12.publish_q0_stream _ a1 a2 a3 2 2 1 [97] h12_pub4 false false [1] 0).2 hn
+    revert this
+    decide
+  · apply Classical.byContradiction
+    intro hn
+    have := (O12.publish_q0_stream _ b1 b2 b3 2 2 1 [97] h12_pub8 false false [2] 0).2 hn
+    revert this
+    decide
+
+/-- … so the theorem applies: `01` is transmitted to `s` before `02` — with `q`'s `09` and `z`'s SUBSCRIBE in between -/
+theorem h12_order : ∃ m₁ m₂ A B C, O12.CopyQ0 m₁ [1] [112] ∧ O12.CopyQ0 m₂ [2] [112] ∧
+    O12.pubsTo 1 (O12.flat (init {}) h12History) = A ++ m₁ :: B ++ m₂ :: C := by
+  obtain ⟨m₁, m₂, A, B, C, _, _, c1, c2, e⟩ := C12_history_order_partial {} (init {}) ReachSeq.init h12History
+    h12_seq.1 h12_seq.2 2 1 4 8 2 2 [97] false false false false [1] [2] 0 0 rfl rfl (by decide)
+    h12_pub4 h12_pub8 h12_entitled.1 h12_entitled.2
+  exact ⟨m₁, m₂, A, B, C, c1, c2, e⟩
+
+/-- the conclusion, visible: what `s` (connection 1) and `z` (connection 4) are written, in order -/
+example : (O12.pubsTo 1 (O12.flat (init {}) h12History)).map (fun m => (m.origin, m.payload)) =
+      [([112], [1]), ([113], [9]), ([112], [2])] ∧
+    (O12.pubsTo 4 (O12.flat (init {}) h12History)).map (fun m => (m.origin, m.payload)) = [([112], [2])] ∧
+    ((O12.pubsTo 1 (O12.flat (init {}) h12History)).filter (fun m => m.origin == [112])).map (·.payload) = [[1], [2]] := by
+  decide
+
+end Mochi.Broker
+
+/-! ### Non-vacuity of the generic order theorem for copies of QoS 1 (immediate: the subscriber has no Receive Maximum) -/
+namespace Mochi.Broker
+open Mochi.Topics
+
+/-- `s` (connection 1, MQTT 3.1.1: no Receive Maximum, so `notDeferred`) subscribes `a` at QoS 1; `p` (connection 2)
+    publishes `01` then `02` at QoS 1, a PINGREQ of `s` in between -/
+def h12History1 : List Op :=
+  [.connect 1 { ver := 4, id := [115] },
+   .recv 1 (.subscribe 1 0 [{ filter := [97], qos := 1 }]),
+   .connect 2 { ver := 4, id := [112] },
+   .recv 2 (.publish 1 false false 1 [97] [1] 0 none),
+   .recv 1 .pingreq,
+   .recv 2 (.publish 1 false false 2 [97] [2] 0 none)]
+
+theorem h12_singleton {α} (l : List α) (d : α) (h : l.length = 1) : l = [l.headD d] := by
+  match l, h with
+  | [x], _ => rfl
+
+/-- each publishing op writes `s` exactly one PUBLISH, a QoS 1 first transmission (dup 0), so
+    `C12_history_order_of_first_tx` applies: `01` before `02` on connection 1 -/
+theorem h12_order_qos1 : ∃ m₁ m₂ A B C,
+    (m₁.payload = [1] ∧ m₁.qos = 1 ∧ m₁.dup = false) ∧ (m₂.payload = [2] ∧ m₂.qos = 1 ∧ m₂.dup = false) ∧
+    O12.pubsTo 1 (O12.flat (init {}) h12History1) = A ++ m₁ :: B ++ m₂ :: C := by
+  have h₁ : O12.pubsTo 1 (step (run (init {}) (h12History1.take 3)) (.recv 2 (.publish 1 false false 1 [97] [1] 0 none))).2 =
+      [(O12.pubsTo 1 (step (run (init {}) (h12History1.take 3)) (.recv 2 (.publish 1 false false 1 [97] [1] 0 none))).2).headD {}] :=
+    h12_singleton _ _ (by decide)
+  have h₂ : O12.pubsTo 1 (step (run (init {}) (h12History1.take 5)) (.recv 2 (.publish 1 false false 2 [97] [2] 0 none))).2 =
+      [(O12.pubsTo 1 (step (run (init {}) (h12History1.take 5)) (.recv 2 (.publish 1 false false 2 [97] [2] 0 none))).2).headD {}] :=
+    h12_singleton _ _ (by decide)
+  obtain ⟨A, B, C, e⟩ := C12_history_order_of_first_tx (init {}) h12History1 3 5 _ _ 1 _ _ rfl rfl (by decide) h₁ h₂
+  exact ⟨_, _, A, B, C, by decide, by decide, e⟩
+
+example : (O12.pubsTo 1 (O12.flat (init {}) h12History1)).map (fun m => (m.payload, m.qos, m.id)) =
+    [([1], 1, 1), ([2], 1, 2)] := by decide
+
+end Mochi.Broker
+
+#print axioms Mochi.Broker.C12_history_order_partial
+#print axioms Mochi.Broker.C12_history_order_of_first_tx
+#print axioms Mochi.Broker.C12_per_op_single_copy
+#print axioms Mochi.Broker.C12_routing_single_copy
+#print axioms Mochi.Broker.C12_routing_immediate_any_qos
+#print axioms Mochi.Broker.C12_qos0_stream_order
+#print axioms Mochi.Broker.h12_order
+#print axioms Mochi.Broker.h12_order_qos1
